@@ -126,6 +126,38 @@ pub fn run(_a: &HashMap<String, String>) -> (usize, usize) {
         }
         report("terminate/kill".to_string(), v);
     }
+    // any operation, then drop: no zombie
+    for op in ["kill", "terminate", "poll", "none"].iter() {
+        let mut v = vec![];
+        {
+            let mut p = child("sleep:300");
+            read_report(p.pid().unwrap(), 2000);
+            match *op {
+                "kill" => {
+                    let _ = p.kill();
+                }
+                "terminate" => {
+                    let _ = p.terminate();
+                }
+                "poll" => {
+                    let _ = p.poll();
+                }
+                _ => (),
+            }
+            drop(p);
+        }
+        std::thread::sleep(Duration::from_millis(50));
+        if !no_children() {
+            v.push(format!("C12/drop-reaps: after {} + drop of a non-detached Popen a child is left unreaped (zombie)", op));
+            loop {
+                let mut st = 0;
+                if unsafe { libc::waitpid(-1, &mut st, 0) } <= 0 {
+                    break;
+                }
+            }
+        }
+        report(format!("{} then drop", op), v);
+    }
     // signals reach exactly the child's pid, not its process group
     {
         let mut v = vec![];
